@@ -1,3 +1,4 @@
+import RModel.Gen.ExecFlags
 import RModel.Base.Lit
 import RModel.Model.Serde
 import RModel.Lemmas.Serde
@@ -298,5 +299,11 @@ theorem apply_saved_eq_apply_direct {α} (apply : RVal → α) (t : Ty) (v : RVa
 theorem apply_saved_plan {α} (apply : RVal → α) (v : RVal) (hw : wellTyped Gen.planTy v = true) :
     okMap apply (de Gen.planTy (ser Gen.planTy v)) = (.ok (apply v) : Except DeErr α) :=
   apply_saved_eq_apply_direct apply _ v (plan_roundtrip_all v hw)
+
+/-- what is on disk after `write_plan` is the serialised value and NOTHING ELSE: the file is opened with truncation
+    (`File::create`), so a longer document that an earlier `plan` left at the same path is replaced, not overlaid.  The flag
+    is read from the source of `scanner.rs::write_plan` on every run; seeds C17e / C17f (an `OpenOptions` without
+    `truncate(true)`) flip it, and the check's second write over a longer document shows the leftover tail. -/
+theorem plan_file_replaced_not_overlaid : ExecFlags.planWriteTruncates = true := by decide
 
 end C17
